@@ -115,4 +115,156 @@ theorem unroll_roll_slice_adjoint (depth rows cols sr sc fr fc count cCount : Na
     (by intro i hi; rw [List.length_replicate, Nat.zero_add, ← unrollIdx_eq_rollIdx]; exact hin i (by rw [← hxs]; exact hi)),
     dot_replicate_zero, AddLaws.zero_add, ← eU]
 
+/-! ### `expand_conv`: a per-image matrix transposition, and its closure the inverse one -/
+
+/-- the buffer `expand_conv` produces: per image, `[windows, filters]` transposed to `[filters, windows]` -/
+def expandBuf (nImg stride filters : Nat) (tv : List S) : List S :=
+  (List.range (nImg * (stride * filters))).map (fun o =>
+    tv.getD (o / (stride * filters) * (stride * filters) + (o % (stride * filters)) / stride
+      + filters * ((o % (stride * filters)) % stride)) zero)
+
+/-- the buffer `expand_conv`'s closure produces -/
+def expandBackBuf (nImg stride filters : Nat) (xv : List S) : List S :=
+  (List.range (nImg * (stride * filters))).map (fun o =>
+    xv.getD (o / (stride * filters) * (stride * filters) + ((o % (stride * filters)) % filters) * stride
+      + (o % (stride * filters)) / filters) zero)
+
+theorem divmod_mul_add (r w c : Nat) (hc : c < w) : (r * w + c) / w = r ∧ (r * w + c) % w = c := by
+  have hpos : 0 < w := by omega
+  constructor
+  · rw [Nat.mul_comm, Nat.mul_add_div hpos, Nat.div_eq_of_lt hc, Nat.add_zero]
+  · rw [Nat.mul_comm, Nat.mul_add_mod, Nat.mod_eq_of_lt hc]
+
+theorem mul_add_lt (r c w h : Nat) (hr : r < h) (hc : c < w) : r * w + c < h * w := by
+  calc r * w + c < r * w + w := by omega
+    _ = (r + 1) * w := by rw [Nat.succ_mul]
+    _ ≤ h * w := Nat.mul_le_mul_right w hr
+
+/-- **`expand_conv`: the closure's buffer is the transpose of the forward buffer** -/
+theorem expandBuf_adjoint (nImg stride filters : Nat) (tv xv : List S)
+    (ht : tv.length = nImg * (stride * filters)) (hx : xv.length = nImg * (stride * filters)) :
+    dot (expandBuf nImg stride filters tv) xv = dot tv (expandBackBuf nImg stride filters xv) := by
+  have lE : (expandBuf nImg stride filters tv).length = nImg * (stride * filters) := by simp [expandBuf]
+  rw [dot_eq_sumRange _ _ (by rw [lE, hx]), dot_eq_sumRange _ _ (by simp [expandBackBuf, ht]), lE, ht,
+    sumRange_mul_split, sumRange_mul_split]
+  refine sumRange_congr_lt nImg (fun g hg => ?_)
+  -- left: positions `k * stride + i`; right: positions `i * filters + k`
+  have hL : stride * filters = filters * stride := Nat.mul_comm _ _
+  have left : sumRange (stride * filters) (fun j =>
+        (expandBuf nImg stride filters tv).getD (g * (stride * filters) + j) zero * xv.getD (g * (stride * filters) + j) zero)
+      = sumRange filters (fun k => sumRange stride (fun i =>
+          tv.getD (g * (stride * filters) + (i * filters + k)) zero * xv.getD (g * (stride * filters) + (k * stride + i)) zero)) := by
+    conv => lhs; rw [hL]
+    rw [sumRange_mul_split]
+    refine sumRange_congr_lt filters (fun k hk => sumRange_congr_lt stride (fun i hi => ?_))
+    have hw : k * stride + i < stride * filters := by rw [hL]; exact mul_add_lt k i stride filters hk hi
+    have hd := divmod_mul_add g (stride * filters) (k * stride + i) hw
+    have hd2 := divmod_mul_add k stride i hi
+    show (expandBuf nImg stride filters tv).getD (g * (filters * stride) + (k * stride + i)) zero * _ = _
+    rw [← hL, expandBuf, getD_map_range_adj _ _ _ (mul_add_lt g _ _ nImg hg hw), hd.1, hd.2, hd2.1, hd2.2,
+      Nat.add_assoc, Nat.mul_comm filters i, Nat.add_comm k (i * filters)]
+  have right : sumRange (stride * filters) (fun j =>
+        tv.getD (g * (stride * filters) + j) zero * (expandBackBuf nImg stride filters xv).getD (g * (stride * filters) + j) zero)
+      = sumRange stride (fun i => sumRange filters (fun k =>
+          tv.getD (g * (stride * filters) + (i * filters + k)) zero * xv.getD (g * (stride * filters) + (k * stride + i)) zero)) := by
+    rw [sumRange_mul_split]
+    refine sumRange_congr_lt stride (fun i hi => sumRange_congr_lt filters (fun k hk => ?_))
+    have hw : i * filters + k < stride * filters := mul_add_lt i k filters stride hi hk
+    have hd := divmod_mul_add g (stride * filters) (i * filters + k) hw
+    have hd2 := divmod_mul_add i filters k hk
+    show _ * (expandBackBuf nImg stride filters xv).getD (g * (stride * filters) + (i * filters + k)) zero = _
+    rw [expandBackBuf, getD_map_range_adj _ _ _ (mul_add_lt g _ _ nImg hg hw), hd.1, hd.2, hd2.1, hd2.2, Nat.add_assoc]
+  rw [left, right, sumRange_comm]
+theorem mk?_vals_of_ok (d : List Nat) (v : List S) (out : Tensor S) (h : Tensor.mk? d v = .ok out) : out.vals = v := by
+  unfold Tensor.mk? at h
+  split at h
+  · simp [throw, throwThe, MonadExceptOf.throw] at h
+  · split at h
+    · simp [throw, throwThe, MonadExceptOf.throw] at h
+    · simp only [pure, Except.pure, Except.ok.injEq] at h; rw [← h]
+
+theorem getR_getD (v : List S) (i : Nat) (h : i < v.length) : getR v i = .ok (v.getD i zero) :=
+  getR_ok v i _ (by rw [List.getD_eq_getElem?_getD, List.getElem?_eq_getElem h]; rfl)
+
+/-- whenever `expand_conv` returns, its buffer is `expandBuf` -/
+theorem expandConv_vals (t out : Tensor S) (lead : List Nat) (nImg stride filters r c : Nat)
+    (hd : t.dims = lead ++ [stride, filters]) (hl : t.vals.length = nImg * (stride * filters))
+    (h : expandConv t r c = .ok out) : out.vals = expandBuf nImg stride filters t.vals := by
+  unfold expandConv at h
+  rw [hd, dimFromEnd_snoc2_1, dimFromEnd_snoc2_2] at h
+  simp only [bind, Except.bind] at h
+  rw [tabulateM_ok _ (fun o => t.vals.getD (o / (stride * filters) * (stride * filters) + (o % (stride * filters)) / stride
+      + filters * ((o % (stride * filters)) % stride)) zero) _ (fun o ho => by
+    apply getR_getD
+    rw [hl] at ho ⊢
+    have hLpos : 0 < stride * filters := by
+      rcases Nat.eq_zero_or_pos (stride * filters) with h0 | h0
+      · rw [h0] at ho; simp at ho
+      · exact h0
+    have hs : 0 < stride := Nat.pos_of_mul_pos_right hLpos |> fun _ => by
+      rcases Nat.eq_zero_or_pos stride with h0 | h0
+      · subst h0; simp at hLpos
+      · exact h0
+    have hw : o % (stride * filters) < stride * filters := Nat.mod_lt _ hLpos
+    have h1 : o % (stride * filters) % stride < stride := Nat.mod_lt _ hs
+    have h2 : o % (stride * filters) / stride < filters := by
+      rw [Nat.div_lt_iff_lt_mul hs, Nat.mul_comm filters stride]; exact hw
+    have hg : o / (stride * filters) < nImg := by
+      rw [Nat.div_lt_iff_lt_mul hLpos]; exact ho
+    have := mul_add_lt (o / (stride * filters))
+      ((o % (stride * filters) % stride) * filters + o % (stride * filters) / stride) (stride * filters) nImg hg
+      (mul_add_lt _ _ filters stride h1 h2)
+    rw [Nat.add_assoc, Nat.add_comm (o % (stride * filters) / stride), Nat.mul_comm filters]
+    exact this)] at h
+  simp only [hl] at h
+  rw [mk?_vals_of_ok _ _ _ h, expandBuf]
+
+/-- whenever `expand_conv`'s closure returns, its buffer is `expandBackBuf` -/
+theorem expandConvBack_vals (x back : Tensor S) (lead : List Nat) (nImg stride filters : Nat)
+    (hp : prod (lead ++ [stride, filters]) = nImg * (stride * filters)) (hl : x.vals.length = nImg * (stride * filters))
+    (h : expandConvBack x (lead ++ [stride, filters]) = .ok back) : back.vals = expandBackBuf nImg stride filters x.vals := by
+  unfold expandConvBack at h
+  rw [dimFromEnd_snoc2_1, dimFromEnd_snoc2_2] at h
+  simp only [bind, Except.bind] at h
+  rw [tabulateM_ok _ (fun o => x.vals.getD (o / (stride * filters) * (stride * filters)
+      + ((o % (stride * filters)) % filters) * stride + (o % (stride * filters)) / filters) zero) _ (fun o ho => by
+    apply getR_getD
+    rw [hp] at ho
+    rw [hl]
+    have hLpos : 0 < stride * filters := by
+      rcases Nat.eq_zero_or_pos (stride * filters) with h0 | h0
+      · rw [h0] at ho; simp at ho
+      · exact h0
+    have hf : 0 < filters := by
+      rcases Nat.eq_zero_or_pos filters with h0 | h0
+      · subst h0; simp at hLpos
+      · exact h0
+    have hw : o % (stride * filters) < stride * filters := Nat.mod_lt _ hLpos
+    have h1 : o % (stride * filters) % filters < filters := Nat.mod_lt _ hf
+    have h2 : o % (stride * filters) / filters < stride := by
+      rw [Nat.div_lt_iff_lt_mul hf]; exact hw
+    have hg : o / (stride * filters) < nImg := by
+      rw [Nat.div_lt_iff_lt_mul hLpos]; exact ho
+    have hin := mul_add_lt _ _ stride filters h1 h2
+    rw [Nat.mul_comm filters stride] at hin
+    have := mul_add_lt (o / (stride * filters)) _ (stride * filters) nImg hg hin
+    rw [Nat.add_assoc]
+    exact this)] at h
+  simp only [hp] at h
+  rw [mk?_vals_of_ok _ _ _ h, expandBackBuf]
+
+/-- **`expand_conv`: the closure is the transpose of the forward map**, for every batch size: whenever the
+    forward operation returns `out` for `t` and the closure returns `back` for the delta `x`,
+    `⟨expand(t), x⟩ = ⟨t, back(x)⟩` -/
+theorem expandConv_closure_adjoint (t x out back : Tensor S) (lead : List Nat) (nImg stride filters r c : Nat)
+    (hd : t.dims = lead ++ [stride, filters]) (hp : prod t.dims = nImg * (stride * filters)) (hwf : prod t.dims = t.vals.length)
+    (hx : x.vals.length = nImg * (stride * filters))
+    (hf : expandConv t r c = .ok out) (hb : expandConvBack x t.dims = .ok back) :
+    dot out.vals x.vals = dot t.vals back.vals := by
+  have hl : t.vals.length = nImg * (stride * filters) := by rw [← hwf, hp]
+  rw [hd] at hb hp
+  rw [expandConv_vals t out lead nImg stride filters r c hd hl hf,
+    expandConvBack_vals x back lead nImg stride filters hp hx hb]
+  exact expandBuf_adjoint nImg stride filters t.vals x.vals hl hx
+
 end Corgi
